@@ -358,3 +358,76 @@ Proof.
   destruct (Z.ltb_spec (nl_utf8relpos i (slen s)) (slen s)); [|discriminate].
   apply cp_loop_safe. assumption.
 Qed.
+
+(* ---- utf8.len ---- *)
+Lemma len_loop_ext d1 d2 : (forall b, d1 b = d2 b) ->
+  forall f s i j n, len_loop d1 f s i j n = len_loop d2 f s i j n.
+Proof.
+  intros He. induction f as [|f IH]; intros s i j n; [reflexivity|]. cbn [len_loop].
+  destruct (j <? i); [reflexivity|]. rewrite He. destruct (d2 (skipn (Z.to_nat i) s)) as [[c a]|]; [apply IH|reflexivity].
+Qed.
+
+Lemma len_loop_empty d f s i j j' n : j < i -> j' < i -> len_loop d (S f) s i j n = len_loop d (S f) s i j' n.
+Proof.
+  intros H1 H2. cbn [len_loop]. destruct (Z.ltb_spec j i); [|lia]. destruct (Z.ltb_spec j' i); [|lia]. reflexivity.
+Qed.
+
+(* utf8.len: the same count / the same failing position where Lua returns, a stop where Lua raises *)
+Lemma utf8len_eq_lua s i j strict : in_i64 i -> in_i64 j -> slen s <= maxint ->
+  match lua_utf8len s i j strict with
+  | LVal r => nl_utf8len s i j strict = Val r
+  | LErr => nl_utf8len s i j strict = Trap
+  end.
+Proof.
+  intros Hi Hj Hs. pose proof (slen_nonneg s) as H0.
+  unfold lua_utf8len, nl_utf8len.
+  destruct (utf8relpos_eq_lua i (slen s) Hi ltac:(lia)) as [Hiffi Heqi].
+  destruct (utf8relpos_eq_lua j (slen s) Hj ltac:(lia)) as [Hiffj Heqj].
+  set (pi := lua_u_posrelat i (slen s)) in *. set (pj := lua_u_posrelat j (slen s)) in *.
+  set (ni := nl_utf8relpos i (slen s)) in *. set (nj := nl_utf8relpos j (slen s)) in *.
+  assert (Hpj : 0 <= pj).
+  { subst pj. unfold lua_u_posrelat. destruct (0 <=? j) eqn:E; [lia|].
+    destruct (slen s <? (0 - u64 j) mod two64); [lia|]. 
+    destruct (Z.leb_spec 0 j); [discriminate|].
+    revert E. unfold u64, two64, in_i64, minint, maxint, two63 in *. intros _.
+    destruct (Z.ltb_spec (slen s) ((0 - j mod 18446744073709551616) mod 18446744073709551616)); lia. }
+  destruct (Z.leb_spec 1 pi) as [H1|H1]; cbn [andb negb].
+  - apply Hiffi in H1. specialize (Heqi H1).
+    destruct (Z.leb_spec 0 ni); [|lia]. cbn [andb].
+    rewrite <- Heqi. destruct (Z.leb_spec ni (slen s)); cbn [negb]; [|reflexivity].
+    destruct (Z.leb_spec 0 nj) as [Hnj|Hnj].
+    + specialize (Heqj Hnj). rewrite <- Heqj.
+      destruct (Z.ltb_spec nj (slen s)); cbn [negb]; [|reflexivity].
+      f_equal. apply len_loop_ext. intros b. symmetry. apply decode_eq_lua.
+    + assert (pj - 1 < 0) by (destruct (Z.le_gt_cases 1 pj) as [Hx|Hx]; [apply Hiffj in Hx; lia|lia]).
+      destruct (Z.ltb_spec nj (slen s)); [|lia]. destruct (Z.ltb_spec (pj - 1) (slen s)); [|lia]. cbn [negb].
+      f_equal. rewrite (len_loop_ext _ _ (fun b => decode_eq_lua b strict)).
+      apply len_loop_empty; lia.
+  - assert (Hni : ni < 0) by (destruct (Z.le_gt_cases 0 ni) as [Hx|Hx]; [apply Hiffi in Hx; lia|lia]).
+    destruct (Z.leb_spec 0 ni); [lia|]. reflexivity.
+Qed.
+
+(* ---- utf8.codes ---- *)
+(* one step of the iterator (after 6daceda): same position and code point, same end, same error *)
+Lemma codes_step_eq_lua s i strict : 0 <= i <= slen s -> slen s <= maxint ->
+  nl_codes_step s i strict = lua_codes_step s i strict.
+Proof.
+  intros Hi Hs. unfold nl_codes_step, lua_codes_step.
+  rewrite (u64_small i) by (unfold maxint, two63, two64 in *; lia).
+  rewrite <- !decode_eq_lua.
+  destruct (Z.eq_dec i 0) as [->|Hne].
+  - (* first call: Lua would skip leading continuation bytes, but iter_codes has rejected them; on such a
+       subject both raise: the port's decoder fails on a continuation byte *)
+    cbn [Z.sub Z.ltb Z.compare]. change (0 - 1 <? 0) with true. cbn iota.
+    destruct (Z.ltb_spec 0 (slen s)) as [Hpos|Hz].
+    + (* non-empty *)
+      destruct (iscont (rd s 0)) eqn:Ec.
+      * (* leading continuation byte: out of the scope of the step (iter_codes raises before) *)
+        admit_leading_cont.
+      * assert (Hsk : skip_cont (S (length s)) s 0 = 0) by (cbn [skip_cont]; rewrite Ec; reflexivity).
+        rewrite Hsk. destruct (slen s <=? 0); [reflexivity|].
+        destruct (nl_utf8decode (skipn (Z.to_nat 0) s) strict) as [[code adv]|]; [|reflexivity].
+        admit_tail.
+    + destruct (Z.leb_spec (slen s) 0); [reflexivity|lia].
+  - admit_rest.
+Abort.
